@@ -24,7 +24,8 @@ mod verif_c10 {
         assert!(ts.datacake_timestamp() == d);
         assert!(ts.unix_timestamp() == d + DATACAKE_EPOCH);
         // bit layout 32|8|16|8
-        assert!(ts.as_u64() == ((s as u64) << 32) | ((f as u64) << 24) | ((c as u64) << 8) | n as u64);
+        let packed = ((s as u64) << 32) | ((f as u64) << 24) | ((c as u64) << 8) | n as u64;
+        assert!(ts.as_u64() == packed, "bit layout 32|8|16|8");
         // rebuilding from the accessors gives the same stamp
         let again = HLCTimestamp::new(ts.datacake_timestamp(), ts.counter(), ts.node());
         assert!(again == ts);
@@ -221,6 +222,9 @@ mod verif_c10 {
     #[cfg_attr(not(feature = "verif_replay"), kani::stub(u16::from_str_radix, kernel::any_u16_radix))]
     fn c10_parse_kernel_all_values() {
         let (r, p, n) = kernel::run();
+        if n == 4 && p[0] <= TIMESTAMP_MAX && p[1] < 250 {
+            assert!(r.is_ok(), "four parsed fields with in-range values are accepted");
+        }
         if let Ok(ts) = r {
             assert!(n == 4);
             // a successfully parsed stamp carries exactly the parsed field values
@@ -286,7 +290,8 @@ mod verif_c10 {
         let v = 4294967200u64 + ((b[8] - b'0') as u64) * 10 + (b[9] - b'0') as u64;
         assert!(r.is_some() == (v <= TIMESTAMP_MAX), "seconds up to 2^32-1 parse, larger values are refused");
         if let Some(ts) = r {
-            assert!(ts.seconds() == v && ts.fractional() == 249 && ts.counter() == 0xFFFF && ts.node() == 255);
+            let kept = ts.seconds() == v && ts.fractional() == 249 && ts.counter() == 0xFFFF && ts.node() == 255;
+            assert!(kept, "the parsed stamp carries the printed fields");
         }
         kani::cover!(v == TIMESTAMP_MAX && r.is_some(), "2^32-1 accepted");
         kani::cover!(v == TIMESTAMP_MAX + 1 && r.is_none(), "2^32 refused");
@@ -334,7 +339,8 @@ mod verif_c10 {
         let r = parse_total(&b);
         assert!(r.is_some());
         let ts = r.unwrap();
-        assert!(ts.counter() >> 4 == 0xFFF && ts.seconds() == 7 && ts.fractional() == 8 && ts.node() == 9);
+        let kept = ts.counter() >> 4 == 0xFFF && ts.seconds() == 7 && ts.fractional() == 8 && ts.node() == 9;
+        assert!(kept, "the parsed stamp carries the printed fields");
         let mut b5 = *b"7-8-1000d-9";
         b5[8] = hexdigit();
         assert!(parse_total(&b5).is_none(), "a counter beyond 16 bits is refused");
@@ -358,6 +364,23 @@ mod verif_c10 {
         kani::cover!(v == 256 && r.is_none(), "256 refused");
     }
 
+    // the longest text Display can produce (25 bytes: 10-digit seconds, zero-padded 4-character fields), node 250..=259
+    #[kani::proof]
+    #[kani::unwind(34)]
+    #[kani::stub(core::slice::memchr::memchr, naive_memchr)]
+    fn c10_parse_longest_canonical() {
+        let mut b = *b"4294967295-0249-FFFF-025d";
+        b[24] = digit();
+        let r = parse_total(&b);
+        let v = 250u64 + (b[24] - b'0') as u64;
+        assert!(r.is_some() == (v <= 255), "the longest canonical text parses exactly when its node field is a u8");
+        if let Some(ts) = r {
+            let kept = ts.seconds() == TIMESTAMP_MAX && ts.fractional() == 249 && ts.counter() == 0xFFFF && ts.node() as u64 == v;
+            assert!(kept, "the parsed stamp carries the printed fields");
+        }
+        kani::cover!(v == 255 && r.is_some(), "the greatest timestamp's text accepted");
+    }
+
     // structure: missing / empty / extra fields, signs (concrete text)
     #[kani::proof]
     #[kani::unwind(34)]
@@ -374,7 +397,8 @@ mod verif_c10 {
         let ok = parse_total(b"1-0002-000A-0004");
         assert!(ok.is_some());
         let ts = ok.unwrap();
-        assert!(ts.seconds() == 1 && ts.fractional() == 2 && ts.counter() == 10 && ts.node() == 4);
+        let kept = ts.seconds() == 1 && ts.fractional() == 2 && ts.counter() == 10 && ts.node() == 4;
+        assert!(kept, "padded text parses to its fields");
         kani::cover!(true, "reached");
     }
 
